@@ -60,7 +60,7 @@
    any other shape fails closed); the dense differential check of harness/props/c18.py validates
    the translation. *)
 From Coq Require Import NArith List Bool.
-From DvcData Require Import Base.Val Model.Transfer Gen.StorageMap Model.PushFetch Proofs.TransferBase Proofs.TransferStatus Proofs.TransferLoop Proofs.TransferProofs Proofs.PushFetchResolve Proofs.PushFetchProofs Proofs.PushFetchMap Proofs.PushFetchIndexed Proofs.PushFetchExamples.
+From DvcData Require Import Base.Val Model.Transfer Gen.StorageMap Model.PushFetch Proofs.TransferBase Proofs.TransferStatus Proofs.TransferLoop Proofs.TransferProofs Proofs.PushFetchResolve Proofs.PushFetchProofs Proofs.PushFetchMap Proofs.PushFetchIndexed Proofs.PushFetchExamples Gen.FetchCall Proofs.FetchCallTie.
 Import ListNotations.
 Open Scope N_scope.
 
@@ -483,3 +483,18 @@ Theorem C18_hypotheses_satisfiable : forall fails,
                  lookup D (sget x_w (gc g)) = Some b -> e_parse (x_env fails) b <> None).
 Proof. exact x_push_hyps. Qed.
 Print Assumptions C18_hypotheses_satisfiable.
+
+(* ---- the directions and flags the model assumes are those of the source (unit fetchcall, every run) --------- *)
+Theorem C18_fetch_call_is_source :
+  fetch_src = OdbRemote /\ fetch_dst = OdbCache /\ fetch_verify_flag_of = OdbRemote /\
+  fetch_src_index_of = OdbRemote /\ fetch_cache_odb = OdbCache /\
+  fetch_requests_every_hashed_entry = true /\ fetch_counts_transferred_and_failed = true.
+Proof. exact fetch_call_is_source. Qed.
+Print Assumptions C18_fetch_call_is_source.
+
+Theorem C18_push_call_is_source :
+  push_src = OdbCache /\ push_dst = OdbRemote /\ push_passes_verify = false /\
+  push_dest_index_of = OdbRemote /\ push_cache_odb = OdbRemote /\
+  push_requests_every_hashed_entry = true /\ push_counts_transferred_and_failed = true.
+Proof. exact push_call_is_source. Qed.
+Print Assumptions C18_push_call_is_source.
